@@ -224,7 +224,22 @@ func unitLeaves(u Unit, m Mode) []interface{} {
 		}
 		return out
 	case "struct":
-		return u.Rec.condLeaves()
+		if len(u.Fields) == 0 {
+			return u.Rec.condLeaves()
+		}
+		// only the named fields, in field order; a zero value is compared too (NULL-like zero: IS NULL)
+		var out []interface{}
+		for i, col := range columnsOf(u.Rec.Table) {
+			switch f := u.Rec.F[i]; {
+			case !has(u.Fields, col.name):
+			case f != nil:
+				out = append(out, f.Leaves()...)
+			case col.kind == "pstr" || col.kind == "nullstr" || col.kind == "raw" || col.kind == "hash":
+			default:
+				out = append(out, zeroLeaf(col.kind))
+			}
+		}
+		return out
 	case "clause":
 		return clLeaves(*u.Cl, m)
 	case "group":
@@ -383,7 +398,7 @@ func (c *Chain) Expected(m Mode) []interface{} {
 		return c.queryLeaves(m)
 	case "update":
 		var out []interface{}
-		hooks := (c.UpKind == "update" || c.UpKind == "updates-map" || c.UpKind == "updates-struct") && !c.SkipHooks
+		hooks := (c.UpKind == "update" || c.UpKind == "updates-map" || c.UpKind == "updates-struct" || c.UpKind == "updates-self") && !c.SkipHooks
 		tracked := model && hooks
 		if c.SetRec != nil {
 			for i, col := range columnsOf(c.SetRec.Table) {
@@ -409,6 +424,16 @@ func (c *Chain) Expected(m Mode) []interface{} {
 		if c.ModelID != 0 {
 			exprs = append(exprs, topExpr{leaves: []interface{}{c.ModelID}})
 		}
+		if len(c.ModelIDs) > 0 {
+			ids := make([]interface{}, len(c.ModelIDs))
+			for i, id := range c.ModelIDs {
+				ids[i] = id
+			}
+			exprs = append(exprs, topExpr{leaves: ids})
+		}
+		if c.UpKind == "updates-self" {
+			exprs = append(exprs, topExpr{leaves: []interface{}{c.SetRec.ID}})
+		}
 		return append(out, whereLeaves(exprs, c.softDelete())...)
 	case "delete":
 		var out []interface{}
@@ -418,6 +443,9 @@ func (c *Chain) Expected(m Mode) []interface{} {
 		exprs := c.topExprs(m)
 		if c.DelRec != nil && c.DelRec.ID != 0 {
 			exprs = append(exprs, topExpr{leaves: []interface{}{c.DelRec.ID}})
+		}
+		if c.ModelID != 0 {
+			exprs = append(exprs, topExpr{leaves: []interface{}{c.ModelID}})
 		}
 		return append(out, whereLeaves(exprs, c.softDelete())...)
 	case "create":
@@ -537,6 +565,8 @@ type Plan struct {
 	// ExtraReal: the real run may send one more statement after Real (Save of a
 	// struct whose key matches no row falls back to an upsert).
 	ExtraReal bool
+	// ExtraRealMany: any number of further statements may follow (FindInBatches fetching further batches)
+	ExtraRealMany bool
 }
 
 // Plan predicts the statements and their bound values.
@@ -572,7 +602,7 @@ func (c *Chain) Plan(m Mode) Plan {
 		return Plan{Dry: [][]interface{}{ins}, Real: append([][]interface{}{c.firstOrSelectLeaves(m), ins}, hook(1)...), DryAt: []int{1}}
 	}
 	e := c.Expected(m)
-	p := Plan{Dry: [][]interface{}{e}, Real: [][]interface{}{e}, DryAt: []int{0}, Hidden: c.HiddenQuery(),
+	p := Plan{Dry: [][]interface{}{e}, Real: [][]interface{}{e}, DryAt: []int{0}, Hidden: c.HiddenQuery(), ExtraRealMany: c.Fin == "batches",
 		ExtraReal: c.Kind == "save" && c.CrKind == "struct" && c.Rows[0].ID != 0}
 	switch {
 	case c.Kind == "create" && (c.CrKind == "struct" || c.CrKind == "slice"):
@@ -650,6 +680,9 @@ func (w *walker) tmpl(t *Tmpl) {
 	if t.Named() {
 		w.info.Hazards["named"] = true
 		w.info.Classes["named:"+t.Carrier] = true
+		if t.CarrierPtr {
+			w.info.Classes["named:struct-ptr"] = true
+		}
 		seen := map[string]int{}
 		for _, r := range t.Refs {
 			seen[r]++
@@ -707,6 +740,12 @@ func (w *walker) rec(r Rec) {
 
 func (w *walker) unit(u Unit, where string) {
 	w.info.Classes[where+":"+u.Form] = true
+	if u.MapType != "" {
+		w.info.Classes["map:"+u.MapType] = true
+	}
+	if len(u.Fields) > 0 {
+		w.info.Classes["struct:selected-fields"] = true
+	}
 	switch u.Form {
 	case "tmpl", "named":
 		w.tmpl(u.T)
@@ -887,6 +926,12 @@ func (c *Chain) Describe(literalLimit bool) Info {
 	}
 	if c.ColMode != "" {
 		w.info.Classes["columns:"+c.ColMode+"-"+c.Kind] = true
+	}
+	if len(c.ModelIDs) > 0 {
+		w.info.Classes["model:slice"] = true
+	}
+	if c.Kind == "delete" && c.ModelID != 0 {
+		w.info.Classes["delete:model-key"] = true
 	}
 	return w.info
 }
